@@ -32,7 +32,7 @@ man = {
         'guard': 'verif',
         'enable': 'go build -tags verif (the harness module replaces github.com/simonvetter/modbus by /repo)',
         'baseline_off_cmd': 'bin/baseline_off',
-        'source_commits': ['a0e22ef', '8c5ea20', '71f1e2b'],
+        'source_commits': ['a0e22ef', '8c5ea20', '71f1e2b', '56d4afc'],
         'add_only': True,
     },
     'engines': [
